@@ -12,9 +12,16 @@
    * an AttributeValue is either plain text (None and "" identified: the code only ever
      tests `not value.text`) or one NameID extension element (attributes that are set,
      as (python member name, value) pairs sorted by name, and its text);
-   * local attribute values are lists of str. *)
+   * local attribute values are lists of str;
+   * str.lower() is Case.lower (C17/Case.v): ASCII letters by Base.Str.lower_char, every other UTF-8
+     character by the table coq/gen/C17Case.v that the harness reads from the interpreter's str.lower()
+     on every run (all code points; capital sigma, whose image depends on its neighbours, is the one
+     character outside the model); str.strip() is Base.Str.strip (ASCII whitespace). *)
 From Coq Require Import String List Bool Arith.
 From Verif Require Import Base.Str.
+(* str.lower(): C17/Case.v (UTF-8 aware; the Unicode part is the table coq/gen/C17Case.v read from Python on
+   every run).  From here on `lower` is Case.lower, in this file and in every file that imports it. *)
+From Verif Require Export C17.Case.
 Import ListNotations.
 Open Scope string_scope.
 
